@@ -62,13 +62,15 @@ def run(W, chk):
         allops = set().union(*am.values()) if am else set()
         need = {"Store(CONFIG).emergency_unlock_penalty", "Store(POSITIONS).expiring_at", "Store(POSITIONS).unlocking_duration", "Store(POSITIONS).lp_asset.amount", "env.block.time"}
         capped = cap_origin in am and all("min" in am[o] for o in need if o in am)
+        capped = capped and "max" not in am.get("Store(CONFIG).emergency_unlock_penalty", ())   # the cap is not raised to the configured base penalty
         chk.expect(need <= set(am) and capped and "div_ceil" not in allops and "wrap" not in allops, "PROV-penalty-cap", "amount:%s" % sorted(to),
                    "penalty = f(base, remaining time, duration, amount) passed through min(.., 90% cap), round-down only",
                    "penalty amount: missing inputs %s, capped %s, ops %s" % (sorted(need - set(am)), capped, sorted(allops & {"div_ceil", "wrap", "min", "max"})), where(e))
     from rules.C09 import uniq_owners as _u
     _u(chk, A)
-    from rules.common import farm_enumeration_bound
-    farm_enumeration_bound(chk, A, "Withdraw")
+    from rules.common import farm_enumeration_bound, farm_expiry_epoch
+    farm_enumeration_bound(chk, A, "Withdraw", W)
+    farm_expiry_epoch(chk, A, "Withdraw")
     lt = PredTrue("total_penalty_fee < amount", lambda pn, pa: rel_sign(pn, pa, is_total, "<", om(AMT)))
     for nm, cut in (("penalty < amount", lt), ("emergency flag", EMERGENCY_FLAG), ("not yet expired", IS_EXPIRED_F)):
         pol = CutPolicy([cut])
